@@ -104,6 +104,19 @@ def run(tier, replay):
     for a, b in [(x, y) for x in EDGE[::3] for y in EDGE[::4]]:
         progs.append("A%% = %d\r\nB%% = %d\r\nPRINT A%% AND B%%; A%% OR B%%; NOT A%%\r\n" % (a, b))
         pmeta.append(("logic", (a, b)))
+    # the operators as CONDITIONS of IF / ELSEIF / WHILE / DO UNTIL / one-line IF: the bitwise word decides (1 AND 2 is false)
+    conds = [(1, 2), (5, 10), (4, 4), (-1, 0), (0, 0), (255, 256), (-32768, 32767), (-32768, -32768), (3, 1), (16384, 16384), (-2, 1)]
+    for a, b in conds + [(rng.randint(-32768, 32767), rng.randint(-32768, 32767)) for _ in range(10)]:
+        for op, kk in (("AND", "andtruth"), ("OR", "ortruth")):
+            c = "A%% %s B%%" % op
+            text = "A%% = %d\r\nB%% = %d\r\n" % (a, b)
+            text += "IF %s THEN\r\nPRINT 1\r\nELSE\r\nPRINT 0\r\nEND IF\r\n" % c
+            text += "IF A%% = 12345 AND B%% = 54 THEN\r\nPRINT 7\r\nELSEIF %s THEN\r\nPRINT 1\r\nELSE\r\nPRINT 0\r\nEND IF\r\n" % c
+            text += "IF %s THEN PRINT 1 ELSE PRINT 0\r\n" % c
+            text += "N%% = 0\r\nWHILE %s\r\nN%% = N%% + 1\r\nIF N%% = 1 THEN A%% = 0: B%% = 0\r\nWEND\r\nPRINT N%%\r\nA%% = %d\r\nB%% = %d\r\n" % (c, a, b)
+            text += "N%% = 0\r\nDO WHILE %s\r\nN%% = N%% + 1\r\nIF N%% = 1 THEN A%% = 0: B%% = 0\r\nLOOP\r\nPRINT N%%\r\n" % c
+            progs.append(text)
+            pmeta.append(("truth", (kk, a, b)))
     for a in EDGE + [rng.randint(-32768, 32767) for _ in range(60)]:
         progs.append("A%% = %d\r\nDEF SEG = VARSEG(A%%)\r\nPRINT PEEK(VARPTR(A%%)); PEEK(VARPTR(A%%) + 1)\r\n" % a)
         pmeta.append(("peek", a))
@@ -216,6 +229,13 @@ def run(tier, replay):
                 recs.append({"id": rid, "k": "tob", "a": arg, "res": [int(nums[0]), int(nums[1])], "text": t})
                 if nums[2:4] not in ([], ["1", "2"]):
                     rep.violation({"rendered_text": t, "observed": out, "expected": "the neighbours W% and Y% are 1 and 2"}, {"prog:neighbours"}, name="neighbours")
+            elif kind == "truth":
+                kk, a, b = arg
+                for v in nums[:5]:
+                    rid += 1
+                    recs.append({"id": rid, "k": kk, "a": a, "b": b, "res": int(v), "text": t})
+                if len(nums) != 5:
+                    rep.violation({"rendered_text": t, "observed": out, "expected": "five lines"}, {"prog:truth"}, name="truth")
             elif kind == "peek-far":
                 rid += 1
                 recs.append({"id": rid, "k": "lob", "a": arg, "res": int(nums[0]), "text": t})
